@@ -54,6 +54,50 @@ def merge_text(n):
     return tuple(out)
 
 
+_PROT = re.compile(r"\\(?=[-+*>#=|~`_])|(?<![\w\\])\d+(\\)(?=[.)])")
+_START_ZONE = re.compile(r"(?:[-*+] |\d+[.)] |\[[ xX]\] )*")
+
+
+def _escapes(t: str):
+    """(text without white space and without protective backslashes, {position in it: the backslash stands at the start of a line})"""
+    t = canon(re.sub(r"(?m)^[ >]+", "", t))
+    # the label of a full reference is not text (the spans compare it): a shortcut reference whose text was converted is
+    # written with its label spelled out, '[so on …][so on ...]', and still points to the same definition
+    t = re.sub(r"\]\[[^\]\n]*\]", "]", t)
+    flat, where = [], {}
+    n = 0
+    for line in t.split("\n"):
+        zone = _START_ZONE.match(line).end()
+        k = 0
+        for m in _PROT.finditer(line):
+            bs = m.start(1) if m.group(1) is not None else m.start()
+            seg = line[k:bs]
+            flat.append(seg)
+            n += len(_WS.sub("", seg))
+            first_word_start = zone if m.group(1) is None else m.start()
+            where[n] = (m.start() if m.group(1) is None else m.start()) == zone or first_word_start == zone
+            k = bs + 1
+        flat.append(line[k:])
+        n += len(_WS.sub("", line[k:]))
+    return _WS.sub("", "".join(flat)), where
+
+
+def other_characters_differ(off: str, on: str):
+    """Every other character of the text, as written (the trees compare text after escapes are resolved): the two outputs may
+    differ in line breaks and in the backslash that protects a marker-like word at the START of a line (the conversion changes
+    line lengths, so the re-wrap puts other words first on a line) -- in nothing else. None when that holds."""
+    ta, wa = _escapes(off)
+    tb, wb = _escapes(on)
+    if ta != tb:
+        k = next((i for i, (x, y) in enumerate(zip(ta, tb)) if x != y), min(len(ta), len(tb)))
+        return {"off": ta[max(0, k - 30):k + 30], "on": tb[max(0, k - 30):k + 30]}
+    for name, mine, other, text in (("on", wb, wa, tb), ("off", wa, wb, ta)):
+        for pos, at_start in mine.items():
+            if pos not in other and not at_start:
+                return {"backslash_only_in": name, "not_at_a_line_start_before": text[pos:pos + 30], "after": text[max(0, pos - 30):pos]}
+    return None
+
+
 class C09(DocProp):
     id = "C09"
     once_kinds = ("exh",)
@@ -131,8 +175,20 @@ class C09(DocProp):
                 col.violation("diff", f"C09/diff/literal-span-changed/{(df[1] or df[2])[0]}", sub,
                               {"off": repr(df[1])[:200], "on": repr(df[2])[:200]})
                 continue
+            # every other character of the text, as written (the trees above compare text after escapes are resolved): the two
+            # outputs may differ in line breaks and in the backslash that protects a marker-like word at the START of a line
+            # (the conversion changes line lengths, so the re-wrap puts other words first on a line), in nothing else
+            bad = other_characters_differ(off, on)
+            if bad:
+                col.violation("diff", "C09/diff/other-characters-changed", sub, bad)
+                continue
+            # "applying it again changes nothing": what the OPTION does on a second application, i.e. formatting the output once
+            # more with and without it (a second pass that changes something either way is C02's business, not this option's)
             again = fm.fmt(on, **dict(o, ellipses=True))
-            if isinstance(again, str) and again != on:
+            again_without = fm.fmt(on, **dict(o, ellipses=False))
+            if isinstance(again, str) and again != on and again == again_without:
+                col.count("second_pass_changes_unrelated_to_the_option_left_to_C02")
+            elif isinstance(again, str) and again != on:
                 base_again = fm.fmt(off, **dict(o, ellipses=False))
                 dd = first_line_diff(on, again)
                 desc = "C09/diff/second-pass-changes"
